@@ -62,10 +62,11 @@ def fixture_src(ws, name, rng, self_param=False, scope=None, extra_deps=(), mult
     ret = ""
     if rtype:
         ret = f" -> Iterator[T{k}]" if is_gen else f" -> T{k}"
+    d = "async def" if rng.random() < 0.12 else "def"
     if multiline and args:
-        sig = f"def {fn}(\n" + "".join(f"    {a},\n" for a in args) + f"){ret}:"
+        sig = f"{d} {fn}(\n" + "".join(f"    {a},\n" for a in args) + f"){ret}:"
     else:
-        sig = f"def {fn}({', '.join(args)}){ret}:"
+        sig = f"{d} {fn}({', '.join(args)}){ret}:"
     body = []
     if doc:
         body.append(f'    """DOC{k} for {name}."""')
@@ -276,7 +277,8 @@ def gen_workspace(root, rng, depth=None, n_names=None, venv=None, collisions=Tru
     if venv:
         add_venv(ws, rng, names)
         # names that exist only in the plugin / third-party tiers are requested from every probe
-        tier_names = ["tp_only", "builtin_thing", "both_tiers"] + (["wsp_only"] if ("workspace_plugin",) in ws.features else [])
+        tier_names = ["tp_only", "builtin_thing", "both_tiers"] + (["wsp_only"] if ("workspace_plugin",) in ws.features else []) \
+            + (["wsp_extra_fx", "wsp_shared_fx", "wsp_deep_fx"] if ("workspace_plugin_chain",) in ws.features else [])
         for rel in list(ws.files):
             if os.path.basename(rel) == "test_probe.py" and not rel.startswith(".venv"):
                 ws.files[rel] += "\n" + "".join(f"def test_tier_{t}({t}):\n    pass\n\n" for t in tier_names)
@@ -295,7 +297,17 @@ def add_venv(ws, rng, names, third_party=True, ws_plugin=None, builtin=True):
             s, _ = fixture_src(ws, n, rng)
             body.append(s + "\n")
         ws.files[f"{sp}/tp_plug.py"] = "".join(body)
-        ws.files[f"{sp}/tp_plug-1.0.dist-info/entry_points.txt"] = "[console_scripts]\nx = y:z\n\n[pytest11]\ntp = tp_plug\n"
+        eps = "tp = tp_plug\n"
+        if rng.random() < 0.5:
+            # the distribution registers a second plugin module that defines one of the names again
+            s1, _ = fixture_src(ws, "tp_only", rng)
+            s2, _ = fixture_src(ws, "tp_b_only", rng)
+            ws.files[f"{sp}/tp_plug_b.py"] = HEADER + s1 + "\n" + s2
+            ws.third_party_rel.add(f"{sp}/tp_plug_b.py")
+            ws.plugin_rel.add(f"{sp}/tp_plug_b.py")
+            eps = rng.choice(["tp = tp_plug\ntp_b = tp_plug_b\n", "tp_b = tp_plug_b\ntp = tp_plug\n"])
+            ws.features.add(("two_entry_modules_same_name",))
+        ws.files[f"{sp}/tp_plug-1.0.dist-info/entry_points.txt"] = "[console_scripts]\nx = y:z\n\n[pytest11]\n" + eps
         ws.files[f"{sp}/tp_plug-1.0.dist-info/METADATA"] = "Name: tp_plug\n"
         ws.third_party_rel.add(f"{sp}/tp_plug.py")
         ws.plugin_rel.add(f"{sp}/tp_plug.py")
@@ -326,6 +338,25 @@ def add_venv(ws, rng, names, third_party=True, ws_plugin=None, builtin=True):
         ws.files[f"{sp}/__editable__.wsplug-0.1.pth"] = ws.root + "\n"
         ws.plugin_rel.add("wsplug/plugin_mod.py")
         ws.features.add(("workspace_plugin",))
+        if rng.random() < 0.5:
+            # the plugin module pulls in a chain of modules by star imports (plugin status propagates along it), and an
+            # ordinary conftest in a side directory reaches the middle of that chain directly
+            ws.files["wsplug/plugin_mod.py"] = "from .extra import *\n" + ws.files["wsplug/plugin_mod.py"]
+            for mod, nxt, nm in (("extra", "shared", "wsp_extra_fx"), ("shared", "deep", "wsp_shared_fx"), ("deep", None, "wsp_deep_fx")):
+                s_, _ = fixture_src(ws, nm, rng)
+                ws.files[f"wsplug/{mod}.py"] = (f"from .{nxt} import *\n" if nxt else "") + HEADER + s_
+                ws.plugin_rel.add(f"wsplug/{mod}.py")
+            ws.files["diamond/conftest.py"] = "from wsplug.shared import *\n"
+            ws.files["diamond/test_probe.py"] = HEADER + "def test_d(wsp_shared_fx, wsp_deep_fx):\n    pass\n"
+            ws.features.add(("workspace_plugin_chain",))
+    elif rng.random() < 0.5:
+        # the project is installed editable from a directory ABOVE the workspace (pip install -e of the repository root,
+        # editor opened on a sub-directory): nothing of the workspace becomes third-party or a plugin through that
+        parent = os.path.dirname(ws.root)
+        ws.files[f"{sp}/selfproj-0.1.dist-info/direct_url.json"] = json.dumps({"url": "file://" + parent, "dir_info": {"editable": True}})
+        ws.files[f"{sp}/selfproj-0.1.dist-info/METADATA"] = "Name: selfproj\n"
+        ws.files[f"{sp}/__editable__.selfproj-0.1.pth"] = parent + "\n"
+        ws.features.add(("editable_root_above_workspace",))
 
 
 def gen_import_cycle_ws(root, rng, n=None):
